@@ -242,6 +242,41 @@ example : (run2 Conn2.init [.base (.send none), .begin none, .base .alloc, .base
     some [.issued ⟨1, true⟩, .wire 1, .issued ⟨2, true⟩, .issued ⟨3, true⟩, .issued ⟨4, true⟩, .wire 2,
       .issued ⟨5, true⟩, .wire 5, .issued ⟨6, true⟩, .issued ⟨7, true⟩, .wire 7] := by decide
 
+
+/-- `send_hello` matches the caller with the right answer: it reports a unique name only if the message it read carries,
+    as reply serial, exactly the serial the Hello was sent with — a fresh serial of this connection — and the name is the
+    string in that message; a message with any other (or no) reply serial is never taken for the answer. -/
+theorem hello_correlated (c : Conn) (a : Arrival) (s : Nat) (r : HelloRes) (c' : Conn)
+    (h : sendHello c a = some (s, r, c')) :
+    s = c.counter ∧ c'.counter = c.counter + 1 ∧
+    (∀ n, r = .name n ↔ (a.replySerial = some s ∧ a.bodyString = some n)) ∧
+    (r = .notTheAnswer ↔ a.replySerial ≠ some s) := by
+  unfold sendHello allocSerial at h
+  split at h
+  · simp at h
+  · rename_i s0 c0 heq
+    split at heq
+    · simp only [Option.some.injEq, Prod.mk.injEq] at heq
+      obtain ⟨rfl, rfl⟩ := heq
+      by_cases hrs : a.replySerial = some c.counter
+      · simp only [hrs, ne_eq, not_true_eq_false, ↓reduceIte] at h
+        cases hb : a.bodyString with
+        | none =>
+          simp only [hb, Option.some.injEq, Prod.mk.injEq] at h
+          obtain ⟨rfl, rfl, rfl⟩ := h
+          simp [hrs]
+        | some n =>
+          simp only [hb, Option.some.injEq, Prod.mk.injEq] at h
+          obtain ⟨rfl, rfl, rfl⟩ := h
+          simp [hrs]
+      · simp only [ne_eq, hrs, not_false_eq_true, ↓reduceIte, Option.some.injEq, Prod.mk.injEq] at h
+        obtain ⟨rfl, rfl, rfl⟩ := h
+        simp [hrs]
+    · simp at heq
+
+example : sendHello ⟨5⟩ ⟨some 5, some ":1.7".toList⟩ = some (5, .name ":1.7".toList, ⟨6⟩) := by decide
+example : sendHello ⟨5⟩ ⟨some 4, some ":1.7".toList⟩ = some (5, .notTheAnswer, ⟨6⟩) := by decide
+
 -- non-vacuity: a concrete history with presets in between
 example : (run Conn.init [.send none, .alloc, .send (some 7), .send none]).map (·.1.map (·.serial)) =
     some [1, 2, 7, 3] := by decide
@@ -257,3 +292,4 @@ end Rustbus.Serial
 #print axioms Rustbus.Serial.resumed_send_carries_reported_serial
 #print axioms Rustbus.Serial.histories_compose
 #print axioms Rustbus.Serial.send_reports_wire_serial
+#print axioms Rustbus.Serial.hello_correlated
